@@ -21,7 +21,7 @@ PROPERTY_ID = "C16"
 RULE = ("case = aggregation class (PNorm/KSFunction/SoftMinMax), signed parameter, optional AggActiveSet fractions "
         "(lower_rel, upper_rel, lower_amt, upper_amt from a grid incl. fractions whose product with n rounds to 0), "
         "optional AggScaling damping in [0,1), and a sequence of 1..6 response() calls each with its own positive data "
-        "vector (n = 1..40; uniform, clustered, geometric, duplicated, integer-grid or constant data). Enumerated "
+        "vector (n = 1..40; uniform, clustered, geometric, duplicated, integer-grid, constant or ten-decade log-uniform data). Enumerated "
         "sub-space: every vector over a 4-level value grid up to the stated length, for a fixed list of option sets. "
         "Non-trivial = some step has n >= 2 with non-constant data, and an active-set or scaling option is set. "
         "Distinct = sha1 of the canonical case JSON.")
@@ -56,7 +56,7 @@ ENUM_OPTS = [
     [0.5, 1.0, 0.0, 0.8],
     [0.0, 0.5, 1.0 / 3.0, 2.0 / 3.0],
 ]
-DISTS = ["uniform", "clustered", "geometric", "dups", "arange", "grid4", "constant"]
+DISTS = ["uniform", "clustered", "geometric", "dups", "arange", "grid4", "constant", "decades"]
 
 
 def budget(tier):
@@ -98,7 +98,8 @@ def strategy(tier):
 
     @st.composite
     def case(draw):
-        mag = draw(st.one_of(st.sampled_from([0.5, 1.0, 2.0, 4.0, 8.0, 20.0, 60.0]),
+        # 1e9 stands for "the largest admissible magnitude for the data" (effective_param clamps it to the overflow limit)
+        mag = draw(st.one_of(st.sampled_from([0.5, 1.0, 2.0, 4.0, 8.0, 20.0, 60.0, 1e9]),
                              st.floats(0.3, 80.0, allow_nan=False).map(lambda v: round(v, 3))))
         sign = draw(st.sampled_from([1.0, -1.0]))
         return {
@@ -130,6 +131,8 @@ def make_data(step):
         x[rng.random(n) < 0.2] = 0.3
     elif dist == "geometric":
         x = 0.02 * 1.35 ** rng.permutation(n).astype(float)
+    elif dist == "decades":        # log-uniform over ten decades around 1: every x**p stays representable (the parameter
+        x = 10.0 ** rng.uniform(-5.0, 5.0, n)   # is clamped to |p ln x| <= 500) although (max/min)**|p| is not
     elif dist == "dups":
         pool = 0.25 * (1 + rng.integers(0, 8, size=max(1, min(4, n))))
         x = rng.choice(pool, size=n)
@@ -282,6 +285,8 @@ def check_case(case):
         labels.append("nonconstant_n2")
     if any(x.size == 1 for x in datas):
         labels.append("n1")
+    if any(x.size >= 2 and x.max() > 1e6 * x.min() for x in datas):
+        labels.append("wide_data" if act is None else "wide_data_with_active_set")
     if any(x.size >= 2 and np.unique(x).size < x.size for x in datas):
         labels.append("ties")
     V = []
@@ -358,6 +363,10 @@ def check_case(case):
         # bounds of the un-scaled aggregate on its active subset
         lo, hi = bounds(agg, par, xa)
         slack = 1e-12 * max(abs(lo), abs(hi), abs(approx))
+        if agg == "KSFunction":
+            # (1/rho) ln sum exp(rho x): the logarithm carries an absolute rounding error of a few eps*(1+|ln|), which
+            # after the division by rho is an *absolute* error that a relative slack does not cover for tiny rho*x
+            slack += 64 * np.finfo(float).eps * (1.0 + abs(par) * float(np.abs(xa).max()) + math.log(xa.size)) / abs(par)
         if approx < lo - slack or approx > hi + slack:
             bad(f"bounds:{agg}:{'pos' if par > 0 else 'neg'}",
                 f"step {k}: aggregate {approx!r} outside [{lo!r}, {hi!r}] for active values {xa.tolist()}")
